@@ -32,7 +32,14 @@ def main():
         i = args.index("--seed")
         seed = args[i + 1]
         del args[i:i + 2]
+    sid = None
+    if "--id" in args:
+        i = args.index("--id")
+        sid = args[i + 1]
+        del args[i:i + 2]
     patch = os.path.abspath(args[0])
+    if sid is None and os.path.basename(patch) == "patch.diff":
+        sid = os.path.basename(os.path.dirname(patch))
     props = args[1:]
     st = sh(["git", "-C", REPO, "status", "--porcelain", "--untracked-files=no"])
     if st.stdout.strip():
@@ -68,7 +75,13 @@ def main():
     finally:
         sh(["git", "-C", REPO, "checkout", "--", "."])
         sh(["git", "-C", REPO, "clean", "-fdq", "tests", "src"])
-    print(json.dumps({"patch": patch, "tier": tier, "results": results}))
+    summary = {"patch": patch, "tier": tier, "seed": seed, "results": results, "at": time.strftime("%Y-%m-%d %H:%M:%S")}
+    print(json.dumps(summary))
+    # run history of this seeded change (read by tools/seed_meta.py)
+    if sid:
+        os.makedirs("/var/tmp/seedwork", exist_ok=True)
+        with open(f"/var/tmp/seedwork/runs_{sid}.jsonl", "a") as f:
+            f.write(json.dumps(summary) + "\n")
     return 0
 
 
